@@ -26,6 +26,7 @@ pub struct Replace<D: DiffHook> {
     /*@*/ rst0: Ghost<St>,        // checker state the first call is expected from; set by the creator (ghost)
     /*@*/ em: Ghost<Seq<Ev>>,     // what has been forwarded to the inner hook (ghost)
     /*@*/ it0: Ghost<Seq<Ev>>,    // the inner hook's history when this adapter was created (ghost)
+    /*@*/ rel0: Ghost<Rel>,       // relation the incoming script is checked against when the inner hook does not rely; set by the creator (ghost)
 }
 //@@ end
 
@@ -36,11 +37,12 @@ impl<D: DiffHook> Replace<D> {
     /*@*/ pub closed spec fn em_(&self) -> Seq<Ev> { self.em@ }
     /*@*/ pub closed spec fn it0_(&self) -> Seq<Ev> { self.it0@ }
     /*@*/ pub closed spec fn rst0_(&self) -> St { self.rst0@ }
+    /*@*/ pub closed spec fn rel0_(&self) -> Rel { self.rel0@ }
     /*@*/ pub closed spec fn p_del(&self) -> Option<(usize, usize, usize)> { self.del }
     /*@*/ pub closed spec fn p_ins(&self) -> Option<(usize, usize, usize)> { self.ins }
     /*@*/ pub closed spec fn p_eq(&self) -> Option<(usize, usize, usize)> { self.eq }
     /*@*/ /// the relation the incoming script is checked against
-    /*@*/ pub open spec fn rr(&self) -> Rel { if self.inner().relies() { self.inner().rely_rel() } else { rel_true() } }
+    /*@*/ pub open spec fn rr(&self) -> Rel { if self.inner().relies() { self.inner().rely_rel() } else { self.rel0_() } }
     /*@*/ /// weak-checker state after everything received
     /*@*/ pub open spec fn rst(&self) -> St { run_rel(self.rr(), self.rst0_(), self.hist_()) }
     /*@*/ pub open spec fn x0(&self) -> Xs { xcanon(self.rst0_().oc, self.rst0_().nc, self.rst0_().oe, self.rst0_().ne, self.rst0_().lvl >= 1) }
@@ -86,7 +88,7 @@ impl<D: DiffHook> Replace<D> {
             del: None,
             ins: None,
             eq: None,
-            /*@*/ hist: Ghost(Seq::empty()), rst0: Ghost(arbitrary()), em: Ghost(Seq::empty()), it0: Ghost(d.trace()),
+            /*@*/ hist: Ghost(Seq::empty()), rst0: Ghost(arbitrary()), em: Ghost(Seq::empty()), it0: Ghost(d.trace()), rel0: Ghost(arbitrary()),
         }
     }
 
@@ -100,7 +102,7 @@ impl<D: DiffHook> Replace<D> {
     fn flush_eq(&mut self) -> (res: Result<(), D::Error>)
     /*@*/     requires old(self).core(), !old(self).rst().fin,
     /*@*/     ensures
-    /*@*/         final(self).hist_() == old(self).hist_(), final(self).rst0_() == old(self).rst0_(), final(self).it0_() == old(self).it0_(),
+    /*@*/         final(self).hist_() == old(self).hist_(), final(self).rst0_() == old(self).rst0_(), final(self).it0_() == old(self).it0_(), final(self).rel0_() == old(self).rel0_(),
     /*@*/         hook_frame(old(self).inner(), final(self).inner(), res),
     /*@*/         res.is_ok() ==> final(self).core() && final(self).p_eq() is None
     /*@*/             && final(self).p_del() == old(self).p_del() && final(self).p_ins() == old(self).p_ins()
@@ -136,7 +138,7 @@ impl<D: DiffHook> Replace<D> {
     /*@*/         // the run of changes is over: carried indices are resolved
     /*@*/         old(self).rst().lvl >= 1 ==> old(self).rst().po <= old(self).rst().oc && old(self).rst().pn <= old(self).rst().nc,
     /*@*/     ensures
-    /*@*/         final(self).hist_() == old(self).hist_(), final(self).rst0_() == old(self).rst0_(), final(self).it0_() == old(self).it0_(),
+    /*@*/         final(self).hist_() == old(self).hist_(), final(self).rst0_() == old(self).rst0_(), final(self).it0_() == old(self).it0_(), final(self).rel0_() == old(self).rel0_(),
     /*@*/         hook_frame(old(self).inner(), final(self).inner(), res),
     /*@*/         res.is_ok() ==> final(self).core() && final(self).p_del() is None && final(self).p_ins() is None && final(self).p_eq() == old(self).p_eq()
     /*@*/             && ((old(self).p_del() is Some || old(self).p_ins() is Some) ==> final(self).xs().last == 2)
@@ -211,7 +213,7 @@ impl<D: DiffHook> Replace<D> {
 }
 //@@ end
 
-//@@ item src/algorithms/replace.rs :: ^impl<D: DiffHook> DiffHook for Replace<D> rw=R0,R3
+//@@ item src/algorithms/replace.rs :: ^impl<D: DiffHook> DiffHook for Replace<D> rw=R4i,R0,R3
 impl<D: DiffHook> DiffHook for Replace<D> {
     type Error = D::Error;
     /*@*/ closed spec fn trace(&self) -> Seq<Ev> { self.hist_() }
